@@ -224,6 +224,40 @@ static uint64_t run_op(const KV& k, ThreadState& ts, uint64_t h) {
     return h;
 }
 
+// ============================================================================ "run alone" reference in a pristine process
+// Second half of the property: each thread obtains the results the same calls produce when run ALONE. The sequential pass of a run
+// shares its process with the warm-up and with every earlier run, so state that is frozen or accumulated process-wide (a function-local
+// static initialised from the first caller's arguments, a static object that grows with every call) is invisible to it. Before the first
+// libtins call of a process a pristine server is forked off; for sampled runs it forks one fresh child per logical thread, which executes
+// only that thread's ops (no warm-up, no other ops, monitor off) and reports the digest.
+#include <sys/socket.h>
+#include <sys/prctl.h>
+#include <poll.h>
+namespace alone {
+static int fd = -1; static pid_t server = -1;
+static bool rd(int f, void* b, size_t n, int timeout_ms) { uint8_t* p = (uint8_t*)b; while (n) { struct pollfd pf = { f, POLLIN, 0 }; int r = poll(&pf, 1, timeout_ms); if (r <= 0) return false; ssize_t k = read(f, p, n); if (k <= 0) return false; p += k; n -= (size_t)k; } return true; }
+static bool wr(int f, const void* b, size_t n) { const uint8_t* p = (const uint8_t*)b; while (n) { ssize_t k = write(f, p, n); if (k <= 0) return false; p += k; n -= (size_t)k; } return true; }
+static void serve(int sfd) {
+    for (;;) {
+        uint32_t len = 0; if (!rd(sfd, &len, 4, -1) || len > (64u << 20)) _exit(0); std::string txt(len, 0); if (len && !rd(sfd, &txt[0], len, 10000)) _exit(0);
+        Plan p; Plan::parse(txt, p); int K = (int)p.cfg.num("threads", 2); std::vector<std::vector<KV> > ops(K);
+        for (auto& l : p.steps) { KV k(l); int t = (int)k.num("t"); if (t >= 0 && t < K) ops[t].push_back(k); }
+        std::vector<uint64_t> out(K, 0); std::vector<uint8_t> ok(K, 0);
+        for (int t = 0; t < K; ++t) {
+            int pf[2]; if (pipe(pf) != 0) continue; pid_t c = fork();
+            if (c == 0) { close(pf[0]); alarm(20); ThreadState ts; uint64_t h = 0xC18; for (auto& k : ops[t]) h = run_op(k, ts, h); wr(pf[1], &h, 8); _exit(0); }
+            close(pf[1]); uint64_t h = 0; if (c > 0 && rd(pf[0], &h, 8, 25000)) { out[t] = h; ok[t] = 1; } close(pf[0]); if (c > 0) { int stt; waitpid(c, &stt, 0); }
+        }
+        uint32_t k32 = (uint32_t)K; if (!wr(sfd, &k32, 4) || !wr(sfd, out.data(), 8 * (size_t)K) || !wr(sfd, ok.data(), (size_t)K)) _exit(0);
+    }
+}
+static void start() { if (fd >= 0) return; int sv[2]; if (socketpair(AF_UNIX, SOCK_STREAM, 0, sv) != 0) return; fflush(0); pid_t c = fork(); if (c == 0) { close(sv[0]); prctl(PR_SET_PDEATHSIG, SIGKILL); signal(SIGALRM, SIG_DFL); alarm(0); serve(sv[1]); _exit(0); } close(sv[1]); if (c < 0) { close(sv[0]); return; } fd = sv[0]; server = c; }
+static bool query(const Plan& p, std::vector<uint64_t>& out, std::vector<uint8_t>& ok) {
+    if (fd < 0) return false; std::string txt = p.text(); uint32_t len = (uint32_t)txt.size(); if (!wr(fd, &len, 4) || !wr(fd, txt.data(), len)) return false;
+    uint32_t K = 0; if (!rd(fd, &K, 4, 120000) || K > 64) return false; out.assign(K, 0); ok.assign(K, 0); return rd(fd, out.data(), 8 * (size_t)K, 10000) && rd(fd, ok.data(), K, 10000);
+}
+}
+
 struct ThrEngine : Engine {
     const char* name() const { return "thr"; }
     std::string components_json() const {
@@ -238,7 +272,7 @@ struct ThrEngine : Engine {
         Plan p; p.engine = "thr"; p.mode = "thr"; p.seed = seed; p.cfg.set("property", "C18");
         int K = cfg.chance(0.7) ? (int)cfg.range(2, 4) : (int)cfg.range(5, 15); int per = (int)cfg.range(3, tier == "thorough" ? 40 : 14);
         int bclass = (int)cfg.below(3); int blo = 1, bhi = bclass == 0 ? 50 : bclass == 1 ? 2000 : 60000;
-        p.cfg.set("threads", K).setu("sched", root.fork("sched").next()).set("blo", blo).set("bhi", bhi).set("seqfirst", cfg.chance(0.5) ? 1 : 0);
+        p.cfg.set("threads", K).setu("sched", root.fork("sched").next()).set("blo", blo).set("bhi", bhi).set("seqfirst", cfg.chance(0.5) ? 1 : 0).set("alone", root.fork("alone").chance(0.25) ? 1 : 0);
         const int dlts[7] = { gen::DLT_EN10MB_, gen::DLT_EN10MB_, gen::DLT_RAW_, gen::DLT_IEEE802_11_, gen::DLT_IEEE802_11_RADIO_, gen::DLT_LINUX_SLL_, gen::DLT_NULL_ };
         // a small TCP trace shared as data (each thread feeds its own follower)
         for (int t = 0; t < K; ++t) {
@@ -273,7 +307,7 @@ struct ThrEngine : Engine {
         // history of the process: every process (worker, minimiser child, replay) first runs a FIXED generic warm-up of every op
         // kind, unmonitored, owned by the lifetime arena. It deliberately does not use the plan's own values, so that a cache or
         // registry keyed by input values is still populated by the threads of the run (and seen by the monitor).
-        { static bool warmed = false; if (!warmed) { warmed = true; arena::init(); mon::tl_logical = arena::LIFETIME; Rng wr(424242); ThreadState ts;
+        { static bool warmed = false; if (!warmed) { alone::start(); warmed = true; arena::init(); mon::tl_logical = arena::LIFETIME; Rng wr(424242); ThreadState ts;
             const int dl[7] = { gen::DLT_EN10MB_, gen::DLT_RAW_, gen::DLT_IEEE802_11_, gen::DLT_IEEE802_11_RADIO_, gen::DLT_LINUX_SLL_, gen::DLT_NULL_, gen::DLT_PPI_ };
             for (int i = 0; i < 7; ++i) for (int j = 0; j < 40; ++j) { gen::Frame f = gen::frame_for(wr, dl[i]); KV k; k.set("op", "parse").set("dlt", dl[i]).set("f", f.bytes); run_op(k, ts, 0); }
             const char* sets[3] = { "ccmp_packets", "tkip_packets", "ccmp_qos_packets" }; for (int i = 0; i < 3; ++i) { KV k; k.set("op", "wpa2").set("set", sets[i]); run_op(k, ts, 0); }
@@ -304,6 +338,11 @@ struct ThrEngine : Engine {
         for (int i = 0; i < 15; ++i) { uint32_t m = unsafe::callers[i]; if (m) st.inc(std::string("probe.libc_call.") + unsafe::names[i]); if (m & (m - 1)) return Verdict::bad(std::string("thr:unsafe-libc:") + unsafe::names[i], std::string("library code called ") + unsafe::names[i] + "(), which keeps hidden static state, from more than one thread"); }
         // (b) result equality
         for (int t = 0; t < K; ++t) { tr.add(fmt("thread %d seq=%llx con=%llx", t, (unsigned long long)seq[t], (unsigned long long)con[t])); if (seq[t] != con[t]) { std::string kinds; std::set<std::string> ks; for (auto& k : ops[t]) ks.insert(k.str("op")); for (auto& s : ks) kinds += s + ","; return Verdict::bad("thr:result-differs", fmt("thread %d (ops: %s) computed other results under interleaving than alone", t, kinds.c_str())); } }
+        // (c) the same calls alone, in a fresh process (sampled runs)
+        if (p.cfg.num("alone", 0)) { std::vector<uint64_t> al; std::vector<uint8_t> ok;
+            if (!alone::query(p, al, ok) || (int)al.size() != K) st.inc("probe.alone_reference_unavailable");
+            else for (int t = 0; t < K; ++t) { if (!ok[t]) { st.inc("probe.alone_reference_child_failed"); continue; } st.inc("chk.thread_digest_vs_alone"); tr.add(fmt("thread %d alone=%llx", t, (unsigned long long)al[t]));
+                if (al[t] != seq[t]) { std::string kinds; std::set<std::string> ks; for (auto& k : ops[t]) ks.insert(k.str("op")); for (auto& x : ks) kinds += x + ","; return Verdict::bad("thr:result-differs-from-run-alone", fmt("thread %d (ops: %s) obtains other results in this process than the same calls produce alone in a fresh process: the outcome depends on what ran before in the process (state frozen or accumulated process-wide)", t, kinds.c_str())); } } }
         uint64_t wsig = 0; for (auto& l : p.steps) wsig = mix64(wsig, fnv1a(KV(l).str("op")));
         st.sched_sig = mix64(sched::sched_hash, wsig); st.nontrivial = sched::switches >= (uint64_t)K; st.sim_us = 0;
         st.states.insert(mix64((uint64_t)K * 8 + std::min<uint64_t>(sched::switches / 16, 7), wsig & 0xff));
